@@ -42,6 +42,21 @@ CLAIMS = {
     "Row allocations are assumed to request >= 1 row (condim in {1,3,4,6}).",
     "design_ref": "DESIGN.md 3 (C16), 9.1",
   },
+  "C37": {
+    "text": "The real orchestration code of forward/step/step1/step2 is walked in source order (host calls inlined with parameter "
+    "substitution, conditions kept as propositional atoms; 350+ launches) and every launch is joined with the access summary of the "
+    "real kernel (read / plain store / accumulate per formal, from its symbolic execution). FRAME: no launch, fill or copy reachable "
+    "from forward() writes a field of the integration state (known finding: sensor delay buffers are inserted into during forward). "
+    "ACC_INIT: every array a kernel of forward() accumulates into is re-initialised earlier in the same forward() under conditions "
+    "implied (z3, over the condition atoms) by the accumulation's own conditions -- the idempotence clause. SPLIT: for Euler and "
+    "implicit, step() and step1();step2() perform the same launches with the same bindings and closure arguments, and launches that "
+    "share an array keep their relative order.",
+    "note": _BASE + "Host conditions are uninterpreted atoms (source text after substitution). Initialisers are fills/copies, zeroing "
+    "kernels, kernels storing one cell per thread, or the per-entity seeding kernels listed with reasons in "
+    "contracts/acc_init_reviewed.txt. The inertia factor/solve path (fused in step, separate in step1/step2) and user callbacks are "
+    "outside the claim; floating-point bit-identity is not claimed.",
+    "design_ref": "DESIGN.md 3 (C37)",
+  },
   "C38": {
     "text": "island._compact_dofs is verified against a thread contract with a quantified loop invariant over both map arrays (classic "
     "loop rule; ghost prefix sum of awake DOFs and ghost tree offsets; initiation/consecution discharged by goal-directed quantifier "
